@@ -85,6 +85,7 @@ struct SimThread {
     bool timed = false, timed_out = false;
     int64_t wake_at = 0;         // mono ms (T_SLEEPING / timed cond wait)
     int join_target = -1;
+    int futex_val = 0;
     const std::function<bool()>* pred = nullptr;
     bool poll_blocked = false;
     int tag = 0;
@@ -157,8 +158,15 @@ int kind_index(char k) {
 }
 
 using syscall_fn = long (*)(long, ...);
+// No function-local static here: its initialisation guard (__cxa_guard_acquire) itself calls syscall(SYS_futex) when two
+// threads race for it, which would re-enter the interposed syscall() below from a thread that does not hold the baton.
+std::atomic<syscall_fn> g_real_syscall{nullptr};
 syscall_fn real_syscall() {
-    static syscall_fn f = reinterpret_cast<syscall_fn>(dlsym(RTLD_NEXT, "syscall"));
+    syscall_fn f = g_real_syscall.load(std::memory_order_acquire);
+    if (!f) {
+        f = reinterpret_cast<syscall_fn>(dlsym(RTLD_NEXT, "syscall"));
+        g_real_syscall.store(f, std::memory_order_release);
+    }
     return f;
 }
 long futex(std::atomic<int>* addr, int op, int val) {  // the simulator's own baton: always the real system call
@@ -234,7 +242,7 @@ bool enabled(SimThread* t) {
             return it == G.mutexes.end() || it->second.owner == -1;
         }
         case T_BLK_COND: return false;
-        case T_BLK_FUTEX: return false;
+        case T_BLK_FUTEX: return *reinterpret_cast<volatile int*>(t->obj) != t->futex_val;  // word changed (even by a non-simulated thread): legal early return
         case T_BLK_JOIN: return G.threads[t->join_target]->state == T_DONE;
         case T_BLK_PRED: return (*t->pred)();
         case T_SLEEPING: return G.mono_ms >= t->wake_at;
@@ -475,23 +483,31 @@ SimThread* new_thread() {
 }
 
 // ---- real functions
+// Resolved lazily into a constant-initialised atomic slot: NO function-local static with a dynamic initialiser, because
+// the guard of such a static (__cxa_guard_acquire) blocks through syscall(SYS_futex) when two threads race for it — and
+// syscall() is one of the seams.
 template <class F>
-F real(const char* name) {
-    void* p = dlsym(RTLD_NEXT, name);
+F resolve(std::atomic<void*>& slot, const char* name) {
+    void* p = slot.load(std::memory_order_acquire);
     if (!p) {
-        fprintf(stderr, "detsim: dlsym(%s) failed\n", name);
-        _exit(13);
+        p = dlsym(RTLD_NEXT, name);
+        if (!p) {
+            fprintf(stderr, "detsim: dlsym(%s) failed\n", name);
+            _exit(13);
+        }
+        slot.store(p, std::memory_order_release);
     }
     return reinterpret_cast<F>(p);
 }
-#define REAL(ret, name, ...)             \
-    using name##_fn = ret (*)(__VA_ARGS__); \
-    static name##_fn real_##name = real<name##_fn>(#name)
+#define REAL(ret, name, ...)                       \
+    using name##_fn = ret (*)(__VA_ARGS__);        \
+    static std::atomic<void*> slot_##name{nullptr}; \
+    name##_fn real_##name = resolve<name##_fn>(slot_##name, #name)
 
 void* trampoline(void* p) {
     auto* me = static_cast<SimThread*>(p);
-    tl_me = me;
     park_self(me);  // wait until scheduled for the first time
+    tl_me = me;     // only now: a thread that does not hold the baton must never look like a simulated thread to the seams
     void* r;
     {
         Ign ig;
@@ -629,6 +645,7 @@ void violation(const std::string& vclass, const std::string& detail) {
 }
 
 void run(const Config& cfg, const std::function<void()>& body) {
+    (void)real_syscall();
     {
         Ign ig;
         reset_run(cfg);
@@ -1080,7 +1097,7 @@ long syscall(long number, ...) {
     for (auto& x : a) x = va_arg(ap, long);
     va_end(ap);
     SimThread* me = tl_me;
-    if (number != SYS_futex || !me || G.dying) return real_syscall()(number, a[0], a[1], a[2], a[3], a[4], a[5]);
+    if (number != SYS_futex || !me || G.dying || G.current != me) return real_syscall()(number, a[0], a[1], a[2], a[3], a[4], a[5]);
     int* addr = reinterpret_cast<int*>(a[0]);
     int op = (int)a[1] & ~(FUTEX_PRIVATE_FLAG | FUTEX_CLOCK_REALTIME);
     int val = (int)a[2];
@@ -1101,6 +1118,7 @@ long syscall(long number, ...) {
         }
         me->state = T_BLK_FUTEX;
         me->obj = addr;
+        me->futex_val = val;
         add_event(me->id, EV_FUTEX_WAIT, me->tag, 0);
         schedule(me);
         me->state = T_RUNNABLE;
